@@ -702,6 +702,16 @@ def gen_pure_case(rng):
                         case["pokes"][str(a_)] = (op_ << 12) | rng.getrandbits(12)
         elif rng.random() < 0.3:
             case["reload"] = {"at": rng.choice([0, 1, 3, 8, 10**6]), "text": T.gen_source(rng)["text"]}
+        if rng.random() < 0.15:
+            # the same (address, word) pair is an INSTRUCTION of the first program and DATA of the second one (which is
+            # shorter and stores that very word there): what the tables say about a cell depends on the program that
+            # is loaded now, not on what was shown for the previous one
+            words = [("NOP", 0xC000), ("INC", 0x9000), ("DEC", 0xA000), ("ZRO", 0xB000), ("NOT", 0x8000), ("STO 0x000", 0x0000), ("LDA 0x005", 0x1005), ("ADD 0x007", 0x3007), ("BRZ 0x003", 0x2003)]
+            L_ = rng.randint(4, 9)
+            lines = [rng.choice(words) for _ in range(L_)]
+            a_ = rng.randrange(2, L_)
+            case = {"kind": "pure", "sim": "toy", "cfg": {}, "text": "\n".join(t_ for t_, _ in lines), "regs": {}, "max_steps": 40, "join_step": rng.choice([0, 1, 2, 10**6]), "seed": rng.getrandbits(30)}
+            case["reload"] = {"at": rng.choice([0, 1, 2, 3]), "text": ".data\nc_: .word %d\n.text\nLDA c_\nSTO %d" % (lines[a_][1], a_)}
         return case
     prog, regs, _ = gen_rv_program(rng, allow_fault=rng.random() < 0.1)
     cfg = {"hz": rng.random() < 0.8, "dcache": rand_cache(rng), "icache": rand_cache(rng, data=False)}
